@@ -163,7 +163,7 @@ func zvNest(depth int, flat *[]int, bad *bool) any {
 		*flat = append(*flat, x)
 		return x
 	case 1:
-		a := zvInts(vrt.Choice(3))
+		a := zvInts(vrt.Choice(vrt.Pick(3, 4)))
 		*flat = append(*flat, a...)
 		return a
 	case 2:
@@ -186,7 +186,7 @@ func zvNest(depth int, flat *[]int, bad *bool) any {
 func ZvC12_Flatten() {
 	var flat []int
 	bad := false
-	nest := zvNest(vrt.Pick(2, 3), &flat, &bad)
+	nest := zvNest(2, &flat, &bad) // depth 3 has > 5 million shapes
 	var res []int
 	var err error
 	vrt.Assert(!vrt.Try(func() { res, err = Flatten[int](nest) }), "C12/Flatten/no-panic")
